@@ -392,6 +392,7 @@ class World:
         self.later_bumps = []    # root re-runs still to come
         self.early = 0.0         # probability that the next re-run happens while a descendant is executing
         self.hold = 0.0          # probability that a unit is slow (its message is worked a round later)
+        self.cycle = 0           # > 0: epochs wrap around (changed contents that WERE stored before)
         self.overlaps = 0
         self.roots = {tag_of(a) for a in algs if not a['inputs']}
         self._depth = 0
@@ -443,6 +444,8 @@ class World:
         """new source data for some roots, and the explicit request to re-run them"""
         for tag, t in group:
             self.epochs[(tag, t)] = self.epochs.get((tag, t), 0) + 1
+            if self.cycle:
+                self.epochs[(tag, t)] %= self.cycle   # source data that comes BACK to an earlier state
             self.ctl.EPOCHS[(tag, t)] = self.epochs[(tag, t)]
             self.note(('poke', tag, t, self.epochs[(tag, t)]))
             self.organize([tag], [t])
@@ -574,6 +577,7 @@ def run_scenario(store, sc, seed=0, model=None):
         w.later_bumps = [[tuple(x) for x in (b if b and isinstance(b[0], list) else [b])] for b in sc['bumps']]
         w.early = float(sc.get('overlap', 0))
         w.hold = float(sc.get('hold', 0))
+        w.cycle = int(sc.get('cycle', 0))
         w.organize([tag_of(a) for a in algs], targets)
         w.script([tuple(s) for s in sc.get('script', [])])
         what, b = 'initial', None
@@ -590,7 +594,9 @@ def run_scenario(store, sc, seed=0, model=None):
             got = w.stored()
             w.note(('check',), stored=dict(got), want=dict(want))
             bad = sorted(k for k in want if got.get(k) != want[k])
-            if bad:
+            if bad and w.cycle:
+                stats['stale-outside-the-premise'] += 1   # expected: the clause does not apply
+            elif bad:
                 k = bad[0]
                 ran = [(e[0], e[1]) for e in w.executed[n0:]]
                 w.problems.append(('C02:e2e-stale-result',
@@ -726,13 +732,19 @@ def run(ctx, res):
             plain.append(dict(base, overlap=0.6 if i % 2 == 0 else 0, hold=0.4 if i % 3 else 0))
             if thorough:
                 plain.append(dict(base, overlap=0 if i % 2 == 0 else 1.0, hold=0.5))
-        for sc in (plain if thorough else plain[:7]):
+        # outside the premise: source data that returns to an earlier state -> contents stored before;
+        # the clause does not apply, the model must still predict the real store exactly
+        plain.insert(2, dict(overlap_shape(), overlap=0, cycle=2))
+        if thorough:
+            plain.extend(dict(sc, cycle=2) for sc in plain[3:40:3])
+        for sc in (plain if thorough else plain[:8]):
             problems, stats = run_scenario(store, _norm(sc), ctx['seed'], model=model)
             for sig, what in problems:
                 res.hit(sig, what, {'kind': 'e2e', 'scenario': sc, 'seed': ctx['seed']})
             res.case(('e2e-plain', repr(sc)), nontrivial=stats['executions'] > len(sc['algs']) * len(sc['targets']))
             res.count('e2e:scenario-single-store')
             res.count('e2e:overlaps', stats['overlaps'])
+            res.count('e2e:stale-outside-the-premise(expected)', stats['stale-outside-the-premise'])
         inside = [c for c in model if not c['outside']]
         res.count('model:histories-outside', len(model) - len(inside))
         outs = common.driver([c['line'] for c in inside], 'Sched')
